@@ -666,18 +666,18 @@ pub proof fn lemma_encrypt0_fixed_point(v: Value, x: CoseEncrypt0, v1: Value, x1
 }
 // ==== every message type, any nesting: the re-encoding is accepted and decodes to the SAME typed value; decode results
 // are unique up to Vec identity (eqv); eqv values encode identically.  Together: the fixed point of C07.
-proof fn lemma_bytes_slot(bv: Value, b: Vec<u8>, w: Value)
+pub proof fn lemma_bytes_slot(bv: Value, b: Vec<u8>, w: Value)
     requires bv == Value::Bytes(b), vv(w) == CV::Bytes(b@),
     ensures w == bv,
 {
     broadcast use axiom_vv_injective;
     assert(vv(w) == vv(bv)) by { reveal_with_fuel(vv, 1); }
 }
-proof fn lemma_prot_slot_same(pv: Value, d: nat, p: ProtectedHeader, w: Value)
+pub proof fn lemma_prot_slot_same(pv: Value, d: nat, p: ProtectedHeader, w: Value)
     requires prot_res(pv, d, p), vv(w) == CV::Bytes(prot_slot(p)),
     ensures w == pv,
 { lemma_bytes_slot(pv, p.original_data->0, w); }
-proof fn lemma_payload_slot(pv: Value, pl: Option<Vec<u8>>, w: Value)
+pub proof fn lemma_payload_slot(pv: Value, pl: Option<Vec<u8>>, w: Value)
     requires payload_res(pv, pl), vv(w) == opt_bytes_cv(pl),
     ensures w == pv,
 {
